@@ -153,6 +153,40 @@ def main(tier):
             if arr.GetUnit() != scal[0].GetUnit() or arr.GetCategory() != scal[0].GetCategory():
                 rep.violation({"check": "FromScalars unit/category", "scalars": [repr(x) for x in scal]}, {"array": repr(arr)})
         rep.count(evaluations=m, nontrivial=m, traces=m)
+        # unit conversion of an Array = the conversions of the corresponding Scalars, whatever was asked of the Array before
+        # (histories: another unit first; the same unit twice with the caller changing the container it received in between)
+        m = 0
+        for _ in range(1500 if thorough else 300):
+            c, u = rng.choice(ATOMS10)
+            same = [a[1] for a in ATOMS10 if db.GetCategoryQuantityType(a[0]) == db.GetCategoryQuantityType(c)]
+            vals = [rng.choice([0.5, 2.0, -3.0, 100.0, 1e-3]) for _i in range(rng.randrange(1, 5))]
+            kind = rng.choice(KINDS)
+            arr = Array(c, cont(vals, kind), u)
+            hist = []
+            for step in range(4):
+                v = rng.choice(same) if step != 2 else hist[-1][0]
+                how = rng.choice(["GetValues", "CreateCopy", "index"])
+                want = [Scalar(c, x, u).GetValue(v) for x in vals]
+                o = P.outcome(lambda: list(arr.GetValues(v)) if how == "GetValues" else list(arr.CreateCopy(unit=v).GetAbstractValue()) if how == "CreateCopy"
+                              else [arr.CreateCopy(unit=v)[i] for i in range(len(vals))])
+                m += 1
+                hist.append((v, how))
+                if o[0] != "ok" or len(o[1]) != len(want) or any(abs(a - b) > 1e-12 * max(abs(b), 1e-300) for a, b in zip(o[1], want)):
+                    rep.violation({"check": "Array conversion differs from the Scalars' conversions", "category": c, "unit": u, "container": kind,
+                                   "history": [list(h) for h in hist]}, {"array": o[2] if o[0] != "ok" else o[1], "scalars": want, "values": vals})
+                    break
+                # the caller does what it likes with the container it received
+                got = arr.GetValues(v)
+                if got is arr.GetAbstractValue():
+                    pass        # asked in its own unit the Array hands out its own container: changing it would change the Array
+                elif isinstance(got, list) and got:
+                    got[0] = 777.0
+                    got.reverse()
+                elif isinstance(got, numpy.ndarray):
+                    got *= 2.0
+            if [float(x) for x in arr.GetAbstractValue()] != vals:
+                rep.violation({"check": "Array conversion changed the Array's own values", "category": c, "unit": u, "container": kind}, {"values": vals, "now": list(arr.GetAbstractValue())})
+        rep.count(evaluations=m, nontrivial=m, traces=m)
     finally:
         UnitDatabase.PopSingleton()
     rep.assumptions += ["element values xs = 2, -3, 2.5 and ys = 5, 4, -1; operand recipes: atom or one product/quotient of %r" % (ATOMS10,),
